@@ -146,6 +146,27 @@ ProvenAtTip == {p \in PeerNames : HasProof(peer[p]) /\ peer[p].proved = tip}
 SyncResumes == (Cardinality(ProvenAtTip) >= Required /\ CpFinalTrue /\ ~Tainted) => PipelineDone
 TipFollows(tips) == \A t \in tips : TrueTd(world, t) <= TrueTd(world, tip)
 
+\* GET_IDLE_BLOCKS tick (prove_or_download_matched_blocks): afterwards no matched block is left without a request
+\* while a peer that could serve it is idle -- so the blocks of a peer that has gone away (its requests are dropped
+\* with it) or whose request timed out are asked of somebody else, and the pipeline cannot wait for ever.  Nothing is
+\* asked twice, and a request holds at most the configured number of hashes.
+ProofAsked == UNION {IF pf'[q].bpr.on THEN ToSet(pf'[q].bpr.hs) ELSE {} : q \in PeerNames}
+BlocksAsked == UNION {IF pf'[q].br.on THEN {e[1] : e \in ToSet(pf'[q].br.hs)} ELSE {} : q \in PeerNames}
+IdleAsksComplete ==
+    LET best == {p \in PeerNames : HasProof(peer'[p]) /\
+                    (peer'[p].proved = tip' \/ tip' \in Range(peer'[p].pLastN) \/ tip' \in Range(peer'[p].pReorg))}
+    IN /\ (\E p \in best : ~pf'[p].bpr.on) => {e[1] : e \in {x \in mmem' : ~x[2]}} \subseteq ProofAsked
+       /\ (\E p \in best : ~pf'[p].br.on) => {e[1] : e \in {x \in mmem' : x[2] /\ ~x[3]}} \subseteq BlocksAsked
+       /\ \A p \in PeerNames, q \in PeerNames :
+             (p # q /\ pf'[p].br.on /\ pf'[q].br.on) =>
+                 {e[1] : e \in ToSet(pf'[p].br.hs)} \cap {e[1] : e \in ToSet(pf'[q].br.hs)} = {}
+       /\ \A p \in PeerNames, q \in PeerNames :
+             (p # q /\ pf'[p].bpr.on /\ pf'[q].bpr.on /\ pf'[p].bpr.get /\ pf'[q].bpr.get) =>
+                 ToSet(pf'[p].bpr.hs) \cap ToSet(pf'[q].bpr.hs) = {}
+
+\* C11: a disconnected peer leaves no request behind
+NoRequestsOf(p) == ~pf'[p].bpr.on /\ ~pf'[p].br.on /\ ~pf'[p].tpr.on
+
 QuiescentEv(a) ==
     /\ UNCHANGED psCore /\ PipeUnchanged
     /\ ((Quiet /\ ~Tainted) => Complete)
@@ -154,7 +175,7 @@ QuiescentEv(a) ==
 
 Step(r) ==
     CASE r.ev = "Connect"    -> Connect(r.a.p) /\ PipeUnchangedNoFetch /\ TimeoutPeers({r.a.p})
-      [] r.ev = "Disconnect" -> Disconnect(r.a.p) /\ PipeUnchangedNoFetch /\ TimeoutPeers({r.a.p})
+      [] r.ev = "Disconnect" -> Disconnect(r.a.p) /\ PipeUnchangedNoFetch /\ TimeoutPeers({r.a.p}) /\ NoRequestsOf(r.a.p)
       [] r.ev = "Advance"    -> Advance(r.a.d) /\ PipeUnchanged
       [] r.ev = "Refresh"    -> /\ RefreshTick(Oracle(r), RequestTimeouts, out'.ban)
                                 /\ FinalizeStep /\ CpQuorum
@@ -188,7 +209,8 @@ Step(r) ==
                                 /\ r.a.token = 0 => /\ cached' = cached
                                                     /\ ReqOf(r, "GetBlockFilters") \in FiltersTickAsks(r.a.elapsed)
                                 /\ r.a.token = 2 => cached' = cached
-      [] r.ev \in {"IdleTick", "NoAnswer"} -> UNCHANGED psCore /\ PipeUnchanged
+      [] r.ev = "IdleTick"   -> UNCHANGED psCore /\ PipeUnchanged /\ IdleAsksComplete
+      [] r.ev = "NoAnswer"   -> UNCHANGED psCore /\ PipeUnchanged
       [] r.ev = "FetchTick"  -> FetchTick
       [] r.ev = "FetchTx"    -> RpcFetchTx(r.a.t, r.a.status, r.a.blk) /\ WrongBlockNote(r.a)
       [] r.ev = "GetTx"      -> RpcGetTx(r.a.t, r.a.status, r.a.blk) /\ WrongBlockNote(r.a)
@@ -335,7 +357,10 @@ TraceNext ==
             \* finish.  (blocked = "did not finish within 300 ms while the first was suspended": a slow machine can
             \* only turn FALSE into TRUE, never the reverse.)
             /\ ("label" \in DOMAIN r.a /\ r.a.paused /\ InLock(r.a.a, r.a.label) /\ r.a.b \in {"SetScripts", "Filters", "FiltersNow", "Block"}
-                /\ ~("bNoop" \in DOMAIN r.a /\ r.a.bNoop))      \* (the second operation had nothing to deliver)
+                /\ ~("bNoop" \in DOMAIN r.a /\ r.a.bNoop)       \* (the second operation had nothing to deliver)
+                \* (... or returns before it takes the lock: a BlockFilters / SendBlock message that is dropped early --
+                \*  no scripts, unknown or unproven peer, malformed -- changes nothing when it runs first either)
+                /\ ("bEff" \in DOMAIN r.a => r.a.bEff))
                   => r.a.blocked
             \* a reader that took its snapshot before the writer ran reports the index AND the tip of that moment
             /\ r.a.a = "Read" =>
